@@ -998,6 +998,8 @@ def _mm(pick):
         items = a[0] if len(a) == 1 else a
         items = list(items)
         if not any(isinstance(i, (SInt, SBool)) for i in items):
+            if len(a) == 1:
+                a = (items,)             # a generator is consumed by now
             return (builtins.max if pick == "max" else builtins.min)(*a, **k)
         r = lift(items[0])
         for i in items[1:]:
